@@ -16,4 +16,4 @@ if old not in s: sys.exit("old text not found")
 open(p,'w').write(s.replace(old,new,1))
 PY
 (cd "$wt" && go build ./... ) || { echo "MUTANT DOES NOT BUILD"; exit 2; }
-cd /verif; VERIF_EVIDENCE_DIR="$ev" ./bin/verifcheck -repo "$wt" -verif /verif -property "$prop" -tier "$tier" 2>&1 | grep -E "VIOLATED|UNDECIDED|^OK|VIOLATION" | cut -c1-420 | head -8
+cd /verif; VERIF_EVIDENCE_DIR="$ev" ${VC:-./bin/verifcheck} -repo "$wt" -verif /verif -property "$prop" -tier "$tier" 2>&1 | grep -E "VIOLATED|UNDECIDED|^OK|VIOLATION" | cut -c1-420 | head -8
